@@ -1416,6 +1416,210 @@ theorem getAmount_exact {s s1 : State} {k : Nat × Nat} {x : Int} (h : getAmount
   · unfold bal; show b.bal _ _ = _; rw [hb]; simp
   · unfold bal; show b.bal _ _ = _; rw [hb]; simp
 
+/-! ## first-generation auctions: bids, restart, every close path -/
+
+theorem LInv.frameB {s s' : State} (h : LInv s) (h1 : s'.lockers = s.lockers) (h2 : s'.lookup = s.lookup)
+    (h3 : s'.lastId = s.lastId) (h4 : ∀ d, s'.bank.bal .locker d = s.bank.bal .locker d) : LInv s' := by
+  refine ⟨?_, ?_, ?_, ?_, ?_, ?_⟩
+  · rw [h1, h3]; exact h.idsLe
+  · rw [h1]; exact h.netNonneg
+  · intro k; have := h.depEq k; unfold dep at this ⊢; rw [h1, h2]; exact this
+  · intro a; have := h.custody a; unfold bal at this ⊢; rw [h2, h4]; exact this
+  · rw [h1, h2]; exact h.ids
+  · rw [h2]; exact h.depNonneg
+
+theorem CInvD.frameB {s s' : State} (h : CInvD D s) (h1 : s'.fees = s.fees)
+    (h2 : ∀ d, s'.bank.bal .collector d = s.bank.bal .collector d) : CInvD D s' := by
+  refine ⟨?_, ?_⟩
+  · rw [h1]; exact h.nonneg
+  · intro a; have := h.custody a; unfold bal at this ⊢; rw [h1, h2]; exact this
+
+theorem clearActive_spec {s s' : State} {k : Nat × Nat} (h : clearActive s k = some s') :
+    s'.lockers = s.lockers ∧ s'.lookup = s.lookup ∧ s'.lastId = s.lastId ∧ s'.bank = s.bank ∧ s'.fees = s.fees := by
+  unfold clearActive at h
+  split at h
+  · simp at h
+  · simp at h; subst h; exact ⟨rfl, rfl, rfl, rfl, rfl⟩
+
+/-- the lot goes back to the collector and is recorded under the auction's own (app, asset): exact -/
+theorem toCollector_inv {s s' : State} {a : Auc1} (hL : LInv s) (hC : CInvD D s)
+    (h : ((s.bank.send .auction .collector a.asset a.lot).bind fun b => setNetFee { s with bank := b } (a.app, a.asset) a.lot) = some s') :
+    LInv s' ∧ CInvD D s' ∧ Delta s s' ∧
+    fee s' (a.app, a.asset) = fee s (a.app, a.asset) + a.lot ∧
+    bal s' .collector a.asset = bal s .collector a.asset + a.lot := by
+  cases hs : s.bank.send .auction .collector a.asset a.lot with
+  | none => simp [hs] at h
+  | some b =>
+    simp only [hs, Option.bind_some] at h
+    obtain ⟨_, _, hb⟩ := Bank.send_spec hs
+    obtain ⟨hx, hs'⟩ := setNetFee_spec h
+    have hf0 := fee_nonneg hC (a.app, a.asset)
+    have h3 := cmove_exact hL hC (s' := s') (k := (a.app, a.asset)) (δ := a.lot)
+      (by rw [hs']; rfl) (by omega)
+      (by intro d; rw [hs']; simp only; rw [hb]; by_cases hd : a.asset = d <;> simp [hd])
+      (by intro d; rw [hs']; simp only; rw [hb]; simp)
+      (by rw [hs']) (by rw [hs']) (by rw [hs'])
+    refine ⟨h3.1, h3.2.1, h3.2.2, ?_, ?_⟩
+    · rw [hs']; simp only [fee, Store.get_put_self]; rfl
+    · rw [hs']; unfold bal; simp only; rw [hb]; simp
+
+theorem toUser_inv {s s' : State} {a : Auc1} {u : Nat} (hL : LInv s) (hC : CInvD D s)
+    (h : ((s.bank.send .auction (.user u) a.asset a.lot).map fun b => ({ s with bank := b } : State)) = some s') :
+    LInv s' ∧ CInvD D s' ∧ Delta s s' ∧ s'.fees = s.fees ∧ ∀ d, bal s' .collector d = bal s .collector d := by
+  cases hs : s.bank.send .auction (.user u) a.asset a.lot with
+  | none => simp [hs] at h
+  | some b =>
+    simp [hs] at h; subst h
+    obtain ⟨_, _, hb⟩ := Bank.send_spec hs
+    have hl : ∀ d, b.bal .locker d = s.bank.bal .locker d := by intro d; rw [hb]; simp
+    have hc : ∀ d, b.bal .collector d = s.bank.bal .collector d := by intro d; rw [hb]; simp
+    exact ⟨hL.frameB rfl rfl rfl hl, hC.frameB rfl hc, Delta.of_eq rfl hc, rfl, fun d => hc d⟩
+
+/-- **every close path** of a first-generation surplus / debt auction keeps the books and is delta-exact -/
+theorem closeMoves_inv {s s' : State} {a : Auc1} {esm : Bool} (hL : LInv s) (hC : CInvD D s)
+    (h : closeMoves s a esm = some s') : LInv s' ∧ CInvD D s' ∧ Delta s s' := by
+  unfold closeMoves at h
+  simp only at h
+  split at h
+  · split at h
+    · obtain ⟨a1, a2, a3, _⟩ := toCollector_inv hL hC h; exact ⟨a1, a2, a3⟩
+    · split at h
+      · obtain ⟨a1, a2, a3, _⟩ := toCollector_inv hL hC h; exact ⟨a1, a2, a3⟩
+      · obtain ⟨a1, a2, a3, _⟩ := toUser_inv hL hC h; exact ⟨a1, a2, a3⟩
+  · split at h
+    · simp at h; subst h; exact ⟨hL, hC, Delta.refl _⟩
+    · split at h
+      · obtain ⟨a1, a2, a3, _⟩ := toUser_inv hL hC h; exact ⟨a1, a2, a3⟩
+      · obtain ⟨a1, a2, a3, _⟩ := toCollector_inv hL hC h; exact ⟨a1, a2, a3⟩
+
+theorem closeAuc_inv {s s' : State} {a : Auc1} {esm : Bool} (hL : LInv s) (hC : CInvD D s)
+    (h : closeAuc s a esm = some s') : LInv s' ∧ CInvD D s' ∧ Delta s s' := by
+  unfold closeAuc at h
+  cases h1 : closeMoves s a esm with
+  | none => simp [h1] at h
+  | some s1 =>
+    simp only [h1, Option.bind_some, Option.map_eq_some_iff] at h
+    obtain ⟨s2, hc, rfl⟩ := h
+    obtain ⟨a1, a2, a3⟩ := closeMoves_inv hL hC h1
+    obtain ⟨f1, f2, f3, f4, f5⟩ := clearActive_spec hc
+    refine ⟨(a1.frame' f1 f2 f3 f4).frame' rfl rfl rfl rfl, (a2.frame' f5 f4).frame' rfl rfl, ?_⟩
+    intro x; have := a3 x; unfold bal at this ⊢
+    show feeAsset x s2.fees - s2.bank.bal _ _ = _
+    rw [f5, f4]; exact this
+
+theorem restartAuc_inv {s : State} (a : Auc1) (now : Int) (hL : LInv s) (hC : CInvD D s) :
+    LInv (restartAuc s a now) ∧ CInvD D (restartAuc s a now) ∧ Delta s (restartAuc s a now) :=
+  ⟨hL.frame' rfl rfl rfl rfl, hC.frame' rfl rfl, Delta.of_eq rfl (fun _ => rfl)⟩
+
+theorem sweepAucs_inv (app : Nat) (surplus esm : Bool) (now : Int) (as : List Auc1) : ∀ {s s' : State}, LInv s → CInvD D s →
+    sweepAucs s app surplus esm now as = some s' → LInv s' ∧ CInvD D s' ∧ Delta s s' := by
+  induction as with
+  | nil => intro s s' hL hC h; simp [sweepAucs] at h; subst h; exact ⟨hL, hC, Delta.refl _⟩
+  | cons a as ih =>
+    intro s s' hL hC h
+    simp only [sweepAucs] at h
+    split at h
+    · split at h
+      · obtain ⟨a1, a2, a3⟩ := restartAuc_inv (D := D) a now hL hC
+        obtain ⟨b1, b2, b3⟩ := ih a1 a2 h
+        exact ⟨b1, b2, a3.trans b3⟩
+      · split at h
+        · simp at h
+        · rename_i s1 hc
+          obtain ⟨a1, a2, a3⟩ := closeAuc_inv hL hC hc
+          obtain ⟨b1, b2, b3⟩ := ih a1 a2 h
+          exact ⟨b1, b2, a3.trans b3⟩
+    · exact ih hL hC h
+
+theorem recordStart_inv {s r : State} (k : Nat × Nat) (now : Int) (hL : LInv r) (hC : CInvD D r) :
+    LInv (recordStart s r k now) ∧ CInvD D (recordStart s r k now) ∧ Delta r (recordStart s r k now) := by
+  unfold recordStart
+  split
+  · split
+    · exact ⟨hL.frame' rfl rfl rfl rfl, hC.frame' rfl rfl, Delta.of_eq rfl (fun _ => rfl)⟩
+    · exact ⟨hL, hC, Delta.refl _⟩
+  · exact ⟨hL, hC, Delta.refl _⟩
+
+theorem unitGetD_inv {s : State} {o : Option State} (hL : LInv s) (hC : CInvD D s)
+    (h : ∀ s', o = some s' → LInv s' ∧ CInvD D s' ∧ Delta s s') :
+    LInv (o.getD s) ∧ CInvD D (o.getD s) ∧ Delta s (o.getD s) := by
+  cases o with
+  | none => exact ⟨hL, hC, Delta.refl _⟩
+  | some s' => exact h s' rfl
+
+theorem unit1_inv {s : State} (active kind : Bool) (now : Int) (k : Nat × Nat) (hL : LInv s) (hC : CInvD D s) :
+    LInv (unit1 s active kind now k) ∧ CInvD D (unit1 s active kind now k) ∧ Delta s (unit1 s active kind now k) := by
+  unfold unit1
+  split
+  · exact unitGetD_inv hL hC (fun s' hs => sweepAucs_inv k.1 kind _ now s.auctions hL hC hs)
+  · obtain ⟨a1, a2, a3⟩ := activateOne_inv (D := D) false k hL hC
+    obtain ⟨b1, b2, b3⟩ := recordStart_inv (s := s) (D := D) k now a1 a2
+    exact ⟨b1, b2, a3.trans b3⟩
+
+theorem begin1Entry_inv {s : State} (snap : Store (Nat × Nat) AMap) (now : Int) (k : Nat × Nat) (hL : LInv s) (hC : CInvD D s) :
+    LInv (begin1Entry s snap now k) ∧ CInvD D (begin1Entry s snap now k) ∧ Delta s (begin1Entry s snap now k) := by
+  unfold begin1Entry
+  split
+  · exact ⟨hL, hC, Delta.refl _⟩
+  · rename_i d hd
+    simp only
+    have h1 : LInv (if d.surplus = true then unit1 s d.active true now k else s) ∧
+        CInvD D (if d.surplus = true then unit1 s d.active true now k else s) ∧
+        Delta s (if d.surplus = true then unit1 s d.active true now k else s) := by
+      split
+      · exact unit1_inv _ _ now k hL hC
+      · exact ⟨hL, hC, Delta.refl _⟩
+    generalize (if d.surplus = true then unit1 s d.active true now k else s) = s1 at h1 ⊢
+    obtain ⟨a1, a2, a3⟩ := h1
+    split
+    · obtain ⟨b1, b2, b3⟩ := unit1_inv (D := D) d.active false now k a1 a2
+      exact ⟨b1, b2, a3.trans b3⟩
+    · exact ⟨a1, a2, a3⟩
+
+theorem begin1Loop_inv (snap : Store (Nat × Nat) AMap) (now : Int) (keys : List (Nat × Nat)) : ∀ {s : State}, LInv s → CInvD D s →
+    LInv (begin1Loop s snap now keys) ∧ CInvD D (begin1Loop s snap now keys) ∧ Delta s (begin1Loop s snap now keys) := by
+  induction keys with
+  | nil => intro s hL hC; exact ⟨hL, hC, Delta.refl _⟩
+  | cons k ks ih =>
+    intro s hL hC
+    obtain ⟨a1, a2, a3⟩ := begin1Entry_inv (D := D) snap now k hL hC
+    obtain ⟨b1, b2, b3⟩ := ih a1 a2
+    exact ⟨b1, b2, a3.trans b3⟩
+
+theorem surplusBid_inv {s s' : State} {app id u : Nat} {amt now : Int} (hL : LInv s) (hC : CInvD D s)
+    (h : surplusBid s app id u amt now = some s') : LInv s' ∧ CInvD D s' ∧ Delta s s' := by
+  unfold surplusBid at h
+  split at h; · simp at h
+  split at h; · simp at h
+  split at h
+  · simp at h; subst h
+    exact ⟨hL.frame' rfl rfl rfl rfl, hC.frame' rfl rfl, Delta.of_eq rfl (fun _ => rfl)⟩
+  · simp at h
+
+theorem debtBid_inv {s s' : State} {app id u : Nat} {bid exp now : Int} (hL : LInv s) (hC : CInvD D s)
+    (h : debtBid s app id u bid exp now = some s') : LInv s' ∧ CInvD D s' ∧ Delta s s' := by
+  unfold debtBid at h
+  split at h; · simp at h
+  split at h; · simp at h
+  rename_i a _
+  split at h; · simp at h
+  split at h
+  · split at h; · simp at h
+    rename_i b1 hs1
+    obtain ⟨_, _, hb1⟩ := Bank.send_spec hs1
+    split at h; · simp at h
+    rename_i b2 hb2
+    simp at h; subst h
+    have hl : ∀ d, b2.bal .locker d = s.bank.bal .locker d ∧ b2.bal .collector d = s.bank.bal .collector d := by
+      intro d
+      unfold refundPrev at hb2
+      split at hb2
+      · obtain ⟨_, _, hb⟩ := Bank.send_spec hb2
+        rw [hb, hb, hb1, hb1]; simp
+      · simp at hb2; subst hb2; rw [hb1, hb1]; simp
+    exact ⟨hL.frameB rfl rfl rfl (fun d => (hl d).1), hC.frameB rfl (fun d => (hl d).2), Delta.of_eq rfl (fun d => (hl d).2)⟩
+  · simp at h
+
 /-! ## all operations -/
 
 /-- side conditions on the external inputs (checked by the driver on every trace line). -/
@@ -1470,6 +1674,11 @@ theorem step_inv {s s' : State} {op : Op} (hL : LInv s) (hC : CInvD D s) (hext :
   | activate g ks =>
     simp only [step] at h; simp at h; subst h
     have := activate_inv (D := D) g ks hL hC; exact ⟨this.1, this.2.1, fun _ _ => this.2.2⟩
+  | begin1 now ks =>
+    simp only [step] at h; simp at h; subst h
+    have := begin1Loop_inv (D := D) s.amap now ks hL hC; exact ⟨this.1, this.2.1, fun _ _ => this.2.2⟩
+  | surplusBid a i u x n => have := surplusBid_inv hL hC (by simpa [step] using h); exact ⟨this.1, this.2.1, fun _ _ => this.2.2⟩
+  | debtBid a i u b e n => have := debtBid_inv hL hC (by simpa [step] using h); exact ⟨this.1, this.2.1, fun _ _ => this.2.2⟩
 
 /-- a withdrawal pays the owner exactly the requested amount and the locker keeps `net + reward − amount`. -/
 theorem withdraw_pays {s s' : State} {u app asset id : Nat} {amt : Int} {rw : Rw} (hL : LInv s) (hC : CInvD D s) (hok : rw.ok)
@@ -1584,13 +1793,6 @@ theorem cmove_dmg {s s' : State} (hL : LInv s) (hC : CInvD D s) {k : Nat × Nat}
     · subst ha; simp; omega
     · have ha' : ¬ a = k.2 := fun e => ha e.symm
       simp [ha, ha']; omega
-
-theorem clearActive_spec {s s' : State} {k : Nat × Nat} (h : clearActive s k = some s') :
-    s'.lockers = s.lockers ∧ s'.lookup = s.lookup ∧ s'.lastId = s.lastId ∧ s'.bank = s.bank ∧ s'.fees = s.fees := by
-  unfold clearActive at h
-  split at h
-  · simp at h
-  · simp at h; subst h; exact ⟨rfl, rfl, rfl, rfl, rfl⟩
 
 theorem v2SurplusClose_inv {s s' : State} {app asset u : Nat} {lot : Int} (hL : LInv s) (hC : CInvD D s)
     (h : step s (.v2SurplusClose app asset u lot) = some s') :
